@@ -343,6 +343,84 @@ def shape_hold():
     }
 
 
+def shape_hold_recycle():
+    """The first build stops after S1 fails (S2, S3 stay pending without a hash); the plan is edited and
+    re-declares the three steps inside a hold block: none may start before the release."""
+    nops = lambda n: [["nop"] for _ in range(n)]  # noqa: E731
+    body = [
+        ["static", ["cfg.txt", "s1.txt"]],
+        ["hold"],
+        ["step", "S1", {"inp": ["cfg.txt"], "out": ["h1.txt"]}],
+        ["step", "S2", {"inp": ["s1.txt"], "out": ["h2.txt"]}],
+        ["step", "S3", {"inp": ["s1.txt"], "out": ["h3.txt"]}],
+    ]
+    return {
+        "name": "hold_recycle",
+        "sources": {"plan.py": ["v1", "v2", "v3"], "cfg.txt": ["bad", "good"], "s1.txt": ["a"]},
+        "scripts": {
+            "./plan.py": {
+                "on": "plan.py",
+                "versions": {"v1": body + nops(2) + [["release"]], "v2": body + nops(6) + [["release"]],
+                             "v3": body + nops(10) + [["release"]]},
+            },
+            "S1": [["if_version", "cfg.txt", "bad", [["exit", 1]]], ["read_declared"], ["write_declared"]],
+            "S2": GENERIC_WORKER,
+            "S3": GENERIC_WORKER,
+        },
+    }
+
+
+def shape_pending_mix():
+    """Pending steps with different causes: A asks for more gpu than exists, B asks for an available
+    amount but waits for the output of F, which fails (under keep-going), C waits for a missing input."""
+    return {
+        "name": "pending_mix",
+        "sources": {"plan.py": ["v1"], "s1.txt": ["a", "b"]},
+        "scripts": {
+            "./plan.py": {
+                "on": "plan.py",
+                "versions": {
+                    "v1": [
+                        ["static", ["s1.txt"]],
+                        ["step", "F", {"inp": ["s1.txt"], "out": ["f.txt"]}],
+                        ["step", "A", {"inp": ["s1.txt"], "out": ["a.txt"], "resources": {"gpu": 7}}],
+                        ["step", "B", {"inp": ["f.txt"], "out": ["b.txt"], "resources": {"gpu": 1}}],
+                        ["step", "C", {"inp": ["nowhere.txt"], "out": ["c.txt"], "resources": {"gpu": 1}}],
+                        ["step", "D", {"inp": ["b.txt"], "out": ["d.txt"]}],
+                    ]
+                },
+            },
+            "F": [["exit", 1]],
+            "A": GENERIC_WORKER,
+            "B": GENERIC_WORKER,
+            "C": GENERIC_WORKER,
+            "D": GENERIC_WORKER,
+        },
+    }
+
+
+def shape_dropped_output_with_late_consumer():
+    """G stops declaring sub/b.txt while a step defined later in the plan still reads it (incomplete build,
+    no clean-up); then the consumer is dropped too: the former output and its directory must go."""
+    return {
+        "name": "dropped_output_with_late_consumer",
+        "sources": {"plan.py": ["v1", "v2", "v3"], "s1.txt": ["a"]},
+        "scripts": {
+            "./plan.py": {
+                "on": "plan.py",
+                "versions": {
+                    "v1": [["static", ["s1.txt"]], ["step", "G", {"inp": ["s1.txt"], "out": ["a.txt", "sub/b.txt"]}]],
+                    "v2": [["static", ["s1.txt"]], ["step", "G", {"inp": ["s1.txt"], "out": ["a.txt"]}],
+                           ["step", "K", {"inp": ["sub/b.txt"], "out": ["k.txt"]}]],
+                    "v3": [["static", ["s1.txt"]], ["step", "G", {"inp": ["s1.txt"], "out": ["a.txt"]}]],
+                },
+            },
+            "G": GENERIC_WORKER,
+            "K": GENERIC_WORKER,
+        },
+    }
+
+
 def shape_amend():
     return {
         "name": "amend",
@@ -518,6 +596,33 @@ def shape_amend_detached_input():
     }
 
 
+def shape_resource_detached_running():
+    """A sub-plan starts a long step that holds a resource and then fails: the step keeps running
+    detached, and must keep counting against the resource while another claimant waits."""
+    nops = lambda n: [["nop"] for _ in range(n)]  # noqa: E731
+    return {
+        "name": "resource_detached_running",
+        "sources": {"plan.py": ["v1"], "sub1.py": ["v1"], "s1.txt": ["a", "b"]},
+        "scripts": {
+            "./plan.py": {
+                "on": "plan.py",
+                "versions": {
+                    "v1": [
+                        ["static", ["s1.txt", "sub1.py"]],
+                        ["step", "./sub1.py", {"inp": ["sub1.py"], "need": "PLAN"}],
+                        ["step", "Y", {"inp": ["z.txt"], "out": ["y.txt"], "resources": {"gpu": 2}}],
+                        ["step", "Z", {"inp": ["s1.txt"], "out": ["z.txt"]}],
+                    ]
+                },
+            },
+            "./sub1.py": [["step", "X", {"inp": [], "out": ["x.txt"], "resources": {"gpu": 2}}]] + nops(4) + [["exit", 1]],
+            "X": nops(40) + GENERIC_WORKER,
+            "Y": GENERIC_WORKER,
+            "Z": nops(8) + GENERIC_WORKER,
+        },
+    }
+
+
 def shape_dir_glob():
     """A pattern that enumerates directories (one step per case directory)."""
     return {
@@ -582,6 +687,10 @@ SHAPES = {
         shape_nested_dirs,
         shape_glob_undeclared,
         shape_dir_glob,
+        shape_dropped_output_with_late_consumer,
+        shape_pending_mix,
+        shape_hold_recycle,
+        shape_resource_detached_running,
         shape_amend_detached_input,
         shape_resources,
     )
